@@ -2760,6 +2760,11 @@ static Type *struct_decl(Token **rest, Token *tok) {
       bits += mem->ty->size * 8;
     }
 
+    // [psABI 3.1.2] An unnamed bit-field does not affect the alignment
+    // of the struct.
+    if (mem->is_bitfield && !mem->name)
+      continue;
+
     if (!ty->is_packed && ty->align < mem->align)
       ty->align = mem->align;
   }
@@ -2780,10 +2785,16 @@ static Type *union_decl(Token **rest, Token *tok) {
   // are already initialized to zero. We need to compute the
   // alignment and the size though.
   for (Member *mem = ty->members; mem; mem = mem->next) {
-    if (ty->align < mem->align)
+    // [psABI 3.1.2] A bit-field occupies only the bytes its bits need,
+    // and an unnamed one does not affect the alignment of the union.
+    int size = mem->ty->size;
+    if (mem->is_bitfield)
+      size = (mem->bit_width + 7) / 8;
+
+    if (!(mem->is_bitfield && !mem->name) && ty->align < mem->align)
       ty->align = mem->align;
-    if (ty->size < mem->ty->size)
-      ty->size = mem->ty->size;
+    if (ty->size < size)
+      ty->size = size;
   }
   ty->size = align_to(ty->size, ty->align);
   return ty;
